@@ -268,7 +268,8 @@ def new_function_rule(unit, gen, fails, undec):
                 reason = 'it calls %s, added by this change and without a contract (modular verification cannot see through it)' % ', '.join(called)
         if reason:
             undec.append({'message': '%s -- not decided: %s' % (x['message'], reason), 'fn': x['fn'], 'module': x['module'], 'kind': 'lost-anchor',
-                          'line': x.get('line', 0), 'rendered': x.get('rendered', ''), 'labels': list(rec.labels) if rec else [], 'src': x.get('src')})
+                          'line': x.get('line', 0), 'rendered': x.get('rendered', ''), 'labels': list(rec.labels) if rec else [], 'src': x.get('src'),
+                          'props': list(x.get('props') or [])})
         else:
             keep.append(x)
     return keep, undec
@@ -374,14 +375,15 @@ def run_unit(prop, unit, pcfg, cache, usize=8, seed=None, want_canary=True, forc
         for lab in f.lost_sites:
             undec.append({'message': 'site obligation %s could not be placed' % lab, 'fn': f.path, 'module': f.module, 'kind': 'lost-anchor',
                           'line': f.line_start, 'rendered': '', 'labels': [lab]})
+    fails, undec = new_function_rule(unit, gen, fails, undec)
     def relevant(x):
+        if x.get('props') is not None: return prop in x['props']      # a failed obligation turned undecided keeps its own property set
         if x.get('fn') is None: return x.get('module') in mods or x.get('module') is None
         labs = x.get('labels') or []
         if any(prop in gen.clauses[l]['own'] or prop in gen.clauses[l]['dep'] for l in labs if l in gen.clauses): return True
         m = x.get('module')
         return prop in safety_props(unitcfg, m) or prop in termination_props(unitcfg, m)
     undec = [x for x in undec if relevant(x)]
-    fails, undec = new_function_rule(unit, gen, fails, undec)
     u.unit, u.gen, u.unitcfg, u.mods, u.res, u.fails, u.undec = unit, gen, unitcfg, mods, res, fails, undec
     u.canaries, u.canaries_failed = exp_in, exp_in & failed_canaries
     u.obs = obligations_for(prop, gen, unitcfg, mods)
